@@ -214,7 +214,7 @@ def run_driver_resilient(exe, scenarios, timeout=600, env=None, threads=1, max_r
     and the run continues with the scenarios after it. Returns (records without Done lines, {id: stderr tail})."""
     recs, crashed = [], {}
     todo = list(scenarios)
-    restarts = 0
+    restarts, hangs = 0, 0
     while todo and restarts <= max_restarts:
         out, rc, err = run_driver(exe, todo, timeout=timeout, env=env, threads=threads, scen_timeout=scen_timeout)
         done = [r["id"] for r in out if r.get("e") == "Done"]
@@ -225,11 +225,15 @@ def run_driver_resilient(exe, scenarios, timeout=600, env=None, threads=1, max_r
         crashed[bad.get("id")] = "rc=%s %s%s" % (rc, "(killed by the watchdog: no progress) " if rc in (-14, 142) else "", sanitizer_summary(err) or err[-1500:])
         todo = todo[len(done) + 1:]
         restarts += 1
+        hangs = sum(1 for v in crashed.values() if "killed by the watchdog" in v)
+        if hangs >= 3:
+            log("driver hung %d times (each costs the scenario time-out); the remaining %d scenarios are not executed" % (hangs, len(todo)))
+            break
         if len(crashed) >= max_crashes:
             # the tree is broken badly enough: every crash is already a violation; do not spend hours restarting the driver
             log("driver died %d times; the remaining %d scenarios are not executed" % (len(crashed), len(todo)))
             break
-    if todo and restarts > max_restarts and len(crashed) < max_crashes:
+    if todo and restarts > max_restarts and len(crashed) < max_crashes and hangs < 3:
         log("INFRA: driver restarted %d times, %d scenarios not executed" % (restarts, len(todo)))
         sys.exit(2)
     return recs, crashed
